@@ -15,6 +15,7 @@ import os
 
 from . import universe as uni
 from . import faults
+from . import effect
 from .apis import RealApi, RefApi
 from .dsl import Interp, Crash, CATCH, UserError, same, first_diff, canon
 from .refmodel import RefState, RefRun
@@ -36,7 +37,7 @@ def viol(clause, facts=None, **detail):
 class StepResult:
     __slots__ = ('op', 'real', 'ref', 'before', 'after', 'real_inv', 'ref_inv',
                  'npoints', 'violations', 'crashed', 'exc', 'bf_paths',
-                 'ref_run', 'skipped', 'answers', 'fault')
+                 'ref_run', 'skipped', 'answers', 'fault', 'mnr', 'unchanged')
 
     def __init__(self, op):
         self.op = op
@@ -52,6 +53,8 @@ class StepResult:
         self.skipped = False
         self.answers = 0
         self.fault = None
+        self.mnr = 0
+        self.unchanged = False
 
 
 class World:
@@ -70,6 +73,7 @@ class World:
         self.transitions = 0
         self.state_digests = set()
         self.mask_names = {'k'} if cfg == 'K1' else set()
+        self.last_commit = None
 
     # -- lifecycle ------------------------------------------------------------
     def start(self):
@@ -77,13 +81,14 @@ class World:
         self.ref = RefState(self.sb.R, self.cache)
         self.steps = []
         self.diverged = False
+        self.last_commit = None
 
     def spec(self):
         return {'cfg': self.cfg, 'steps': copy.deepcopy(self.steps)}
 
     def save(self):
         return (self.sb.save(), self.ref.fs.copy(), copy.deepcopy(self.ref.rec),
-                list(self.steps), self.diverged)
+                list(self.steps), self.diverged, self.last_commit)
 
     def restore(self, h):
         self.sb.restore(h[0])
@@ -92,6 +97,7 @@ class World:
         self.ref.rec = copy.deepcopy(h[2])
         self.steps = list(h[3])
         self.diverged = h[4]
+        self.last_commit = h[5]
 
     def drop(self, h):
         self.sb.drop(h[0])
@@ -204,6 +210,10 @@ class World:
 
         # ---- reference model ------------------------------------------------
         rec_before = copy.deepcopy(self.ref.rec)
+        files_at_start = dict(self.ref.fs.t)
+        was_diverged = self.diverged
+        if self.ref.rec is None:
+            self.last_commit = None
         fired = res.fault['fired'] if res.fault else None
         if res.crashed:
             res.ref = ('exc', 'Crash')
@@ -251,6 +261,7 @@ class World:
         # ---- EQ-REF -----------------------------------------------------------
         if check_ref and not self.diverged:
             self._eq_ref(res)
+        self._effect_oracle(res, files_at_start, versions, fault, was_diverged)
         if res.real[0] == 'exc':
             # The rollback monitors above compare before/after directly.  For
             # everything that follows, the reference state adopts the tree the
@@ -258,6 +269,48 @@ class World:
             # reappear), so later oracles are not polluted by it.
             self._adopt_real_tree(res.after)
         return res
+
+    def _effect_oracle(self, res, files_at_start, versions, fault, was_diverged):
+        """C05: no unjustified re-execution; outputs of calls that were not
+        re-executed are not rewritten."""
+        prev = self.last_commit
+        ok = (res.real[0] == 'ok' and res.ref is not None and res.ref[0] == 'ok' and not was_diverged and
+              fault is None and res.ref_run is not None)
+        if ok and prev is not None and prev['cache'] == self.cache:
+            V = res.violations
+            invoked = effect.real_idents(self.sb, res.real_inv)
+            invoked_set = set(invoked)
+            mnr = effect.must_not_run(prev, res.ref_run.trace, files_at_start, versions, self.sb.R, self.mask_names)
+            res.mnr = len(mnr)
+            for i, node in mnr.items():
+                if effect.loose(i) in invoked_set:
+                    V.append(viol('effect.unjustified_rerun', {'kind': i[0]},
+                                  call=[self.sb.rel(i[1]) if i[1] else None, effect.fname_of(node)]))
+            unchanged = (effect.root_equal(prev['trace'], res.ref_run.trace) and
+                         effect.clear(res.ref_run.trace, self.sb.R, self.mask_names) and
+                         not effect.displaced_failure(res.ref_run.trace) and
+                         all(files_at_start.get(p) == prev['files'].get(p) for p in prev['files']) and
+                         effect.versions_equal_all(prev['versions'], versions))
+            if unchanged:
+                want = [effect.loose(i) for i in effect.predict_unchanged(prev['trace'])]
+                res.unchanged = True
+                if invoked != want:
+                    V.append(viol('effect.unchanged_rebuild_log', {},
+                                  invoked=[[self.sb.rel(i[1]) if i[1] else None, str(i[2])[:60]] for i in invoked],
+                                  expected=[[self.sb.rel(i[1]) if i[1] else None, str(i[2])[:60]] for i in want]))
+            # outputs whose producer did not run keep inode and mtime
+            ran_paths = {i[1] for i in invoked if i[0] == 'bf'}
+            for r, v in res.before.items():
+                if v[0] == 'f' and r != self.cache_rel and self.sb.p(r) in prev['outputs']:
+                    w = res.after.get(r)
+                    if w is not None and w[0] == 'f' and self.sb.p(r) not in ran_paths and (w[2], w[3]) != (v[2], v[3]):
+                        V.append(viol('effect.output_rewritten', {}, path=r))
+        if (res.real[0] == 'ok' and res.ref is not None and res.ref[0] == 'ok' and res.ref_run is not None and
+                fault is None and not self.diverged):
+            self.last_commit = {'trace': res.ref_run.trace, 'files': dict(self.ref.fs.t), 'versions': dict(versions),
+                                'cache': self.cache, 'outputs': set(res.ref_run.outputs)}
+        elif res.real[0] == 'ok':
+            self.last_commit = None
 
     def _ref_run(self, prog, versions, fail_setup):
         it2 = Interp(prog, versions, None)
@@ -299,9 +352,14 @@ class World:
             if v[0] == 'd':
                 t[p] = ('d',)
             elif r == self.cache_rel:
-                t[p] = ('f', b'<cache>')
+                t[p] = ('f', b'<cache>', 0)
             else:
-                t[p] = ('f', v[1])
+                old = self.ref.fs.t.get(p)
+                if old is not None and old[0] == 'f' and old[1] == v[1]:
+                    t[p] = old
+                else:
+                    from .refmodel import new_mid
+                    t[p] = ('f', v[1], new_mid())
         self.ref.fs.t = t
         self.ref.sync()
 
@@ -415,6 +473,7 @@ class World:
         self.note_state(res.after)
         rec_before = copy.deepcopy(self.ref.rec)
         had_cache = self.ref.fs.kind(self.cache) is not None
+        self.last_commit = None
         try:
             self.ref.clean()
             res.ref = ('ok', None)
